@@ -140,8 +140,14 @@ def cmd_check(mname, args):
     seed = args.seed if args.seed is not None else int(os.environ.get("VERIF_SEED", DEFAULT_SEED[tier]))
     workers = args.workers or int(os.environ.get("VERIF_WORKERS", 0)) or min(16, os.cpu_count() or 1)
     m = engine.machine_by_name(mname)
-    plan = m.PLANS[tier]
+    plan = dict(m.PLANS[tier])
     opts = dict(plan.get("opts", {}))
+    scale = args.scale if args.scale is not None else float(os.environ.get("VERIF_SCALE", 1.0))
+    if scale != 1.0:
+        # budget scaling for self-tests and mutant sweeps: fewer runs of every stratum, same generators
+        plan["strata"] = [(s, max(50, int(min(c, (m.stratum_size(s) or c)) * scale))) for s, c in plan["strata"]]
+    if args.pristine is not None:
+        opts["pristine"] = bool(args.pristine)
     t0 = time.time()
     print("check %s tier=%s VERIF_SEED=%d workers=%d repo=%s" % (mname, tier, seed, workers, sut.REPO))
     sys.stdout.flush()
@@ -193,6 +199,8 @@ def main(argv=None):
         p.add_argument("--tier", choices=["quick", "thorough"])
         p.add_argument("--seed", type=int)
         p.add_argument("--workers", type=int)
+        p.add_argument("--scale", type=float, help="multiply every stratum's run count (self-tests)")
+        p.add_argument("--pristine", type=int, choices=[0, 1], help="override the tier's pristine-reference setting")
     p = sub.add_parser("replay")
     p.add_argument("path")
     p.add_argument("--quiet", action="store_true")
